@@ -59,8 +59,9 @@ pub enum Reading {
 /// Switchable deviations used only to attribute failures to known findings (DESIGN.md section 7).
 #[derive(Clone, Copy, PartialEq, Eq, Debug, Default)]
 pub struct Deviation {
-    /// D-atomicity-vs-plain-store: RMW atomicity is only enforced against other RMWs; a plain
-    /// store may be modification-ordered between an RMW and the store it read from.
+    /// D-atomicity-vs-plain-store: RMW atomicity is only enforced between RMWs in the form "no
+    /// two RMWs read from the same store" (and an RMW is mo-after what it read); other stores may
+    /// be modification-ordered between an RMW and the store it read from.
     pub at_ignores_plain_stores: bool,
 }
 
@@ -392,16 +393,16 @@ impl Graph {
                     return false;
                 }
                 // ... immediately (atomicity)
-                if pos[r] != pos[w1] + 1 {
-                    if dev.at_ignores_plain_stores {
-                        // only other RMWs may not intervene
-                        for k in pos[w1] + 1..pos[r] {
-                            if self.evs[mo[k]].kind == EK::U {
-                                return false;
-                            }
+                if pos[r] != pos[w1] + 1 && !dev.at_ignores_plain_stores {
+                    return false;
+                }
+                if dev.at_ignores_plain_stores {
+                    // deviation: the only atomicity guarantee left is that no two RMWs read
+                    // from the same store
+                    for &r2 in &readers {
+                        if r2 != r && self.evs[r2].kind == EK::U && self.rf[r2] == Some(w1) {
+                            return false;
                         }
-                    } else {
-                        return false;
                     }
                 }
             }
